@@ -213,8 +213,11 @@ class MultiTerm(qcore.Query):
             return matching.NullMatcher()
 
         if len(qs) == 1:
-            # If there's only one term, just use it
+            # If there's only one term, just use it (this query's boost
+            # still applies, as it does when there are several terms)
             m = qs[0].matcher(searcher, context)
+            if self.boost != 1.0:
+                m = matching.WrappingMatcher(m, boost=self.boost)
         else:
             if constantscore:
                 # To tell the sub-query that score doesn't matter, set weighting
